@@ -1,13 +1,13 @@
 SPECIFICATION Spec
 CONSTANTS
-  NVarsSet <- MC_N3
-  Grid <- MC_GridThree
-  MaxExcluded = 1
+  Schemes <- MC_SchemesThree
   AllowMalformed = FALSE
   AsFound_SignedRelativeTest = FALSE
   AsFound_NearZeroBandIgnoresDrift = FALSE
+  AsFound_ExclusionBySubstring = FALSE
 INVARIANT TypeOK
 INVARIANT C15_AcceptedIsSteady
+INVARIANT C15_JudgesExactlyNonExcluded
 INVARIANT C15_OtherwiseRaises
 PROPERTY C15_LeavesSolverUntouched
 CONSTRAINT Emit
